@@ -4,10 +4,6 @@ import TrustVerif.Drv.Common
 /-
 Driver for C04.  Protocol (one case):
 
-  tpmode asis|fixed                        (before the first case) which TP model answers: the code as it is
-                                           (`tpStep`, partial theorems) or the patched step (`tpStepFixed`,
-                                           full theorems); chosen by the harness from the implementation's
-                                           answer on the recorded witness of finding C04-tp-retrigger
   case <n>
   -- route S: the pub structs (one struct of each kind per case, created with `new()`)
   s ton|tof|tp <in> <pt> <dt>              -> m q<b>e<et> | m panic
@@ -44,7 +40,6 @@ def parseIntKind? : String → Option IntKind
   | _ => none
 
 structure St where
-  tpFixed : Bool := false
   -- route S
   ton : TonS := {}
   tof : TofS := {}
@@ -127,8 +122,8 @@ def stepS (st : St) (kind : String) (args : List String) : St × Option String :
   | "tp" =>
     match parseT? args with
     | some c =>
-      if (if st.tpFixed then tpOvfFixed st.tp c else tpOvf st.tp c) then (st, some "m panic") else
-      let r := if st.tpFixed then tpStepFixed st.tp c else tpStep st.tp c
+      if tpOvf st.tp c then (st, some "m panic") else
+      let r := tpStep st.tp c
       ({ st with tp := r.1 }, some ("m " ++ showT r.2))
     | none => bad st
   | "ctu" =>
@@ -198,21 +193,6 @@ def doCall (st : St) (quiet : Bool) (id now : String) (args : List String) : St 
     | some (k, ik) =>
       match parseCall? k ik now args with
       | some c =>
-        -- the patched TP model, when selected
-        let fixedTp : Option XCall := match c with
-          | .tp x => if st.tpFixed then some x else none
-          | _ => none
-        match fixedTp with
-        | some x =>
-          let i := st.store.get id
-          if execTpOvfFixed i.timer x then
-            if quiet then ({ st with pending := st.pending ++ ["panic"] }, none) else (st, some "m panic")
-          else
-            let r := execTpFixed i.timer x
-            let store := st.store.set id { i with timer := r.1 }
-            if quiet then ({ st with store := store, pending := st.pending ++ [showT r.2] }, none)
-            else ({ st with store := store }, some ("m " ++ showT r.2))
-        | none =>
         if execOvf (st.store.get id) c then
           if quiet then ({ st with pending := st.pending ++ ["panic"] }, none) else (st, some "m panic")
         else
@@ -225,9 +205,7 @@ def doCall (st : St) (quiet : Bool) (id now : String) (args : List String) : St 
 
 def step (st : St) (line : String) : St × Option String :=
   match words line with
-  | ["case", _] => ({ tpFixed := st.tpFixed }, none)
-  | ["tpmode", "asis"] => ({ st with tpFixed := false }, none)
-  | ["tpmode", "fixed"] => ({ st with tpFixed := true }, none)
+  | ["case", _] => ({}, none)
   | ["end"] => (st, none)
   | "impl" :: _ => (st, none)
   | "tag" :: _ => (st, none)
